@@ -121,6 +121,10 @@ type SimPeer struct {
 	// liedStops: stop blocks of the getcfheaders queries it answered with
 	// a lie.
 	liedStops []*chainmodel.Block
+	// sentBadBlockWithHeader counts delivered block messages that carry the
+	// requested header but fail the validity checks.
+	sentBadBlockWithHeader int
+	lastBadKind            string
 	// cfAsked: heights for which the client asked this node for filter
 	// headers.
 	cfAsked map[int32]bool
@@ -684,7 +688,9 @@ func (p *SimPeer) serveBlock(h chainhash.Hash) {
 				}
 			}
 		} else {
-			msg.Transactions[0].TxIn[0].Witness = nil
+			// A block without any witness data needs no commitment: that
+			// would be a valid block. Forge the commitment nonce instead.
+			msg.Transactions[0].TxIn[0].Witness = wire.TxWitness{append(make([]byte, 31), 3)}
 		}
 	case blkForgedCommit:
 		// Change the coinbase witness nonce: txids unchanged, the
@@ -700,7 +706,13 @@ func (p *SimPeer) serveBlock(h chainhash.Hash) {
 			msg.Transactions[0].TxIn[0].Witness = wire.TxWitness{append(make([]byte, 31), 2)}
 		}
 	}
-	p.send(msg)
+	bad := kind != blkHonest && kind != blkOther
+	p.sendWith(msg, false, func() {
+		if bad {
+			p.sentBadBlockWithHeader++
+			p.lastBadKind = blkNames[kind]
+		}
+	})
 }
 
 func (p *SimPeer) onInv(m *wire.MsgInv) {
